@@ -48,9 +48,7 @@ MANIFEST = dict(
          "theorem; class scope and class/enum/struct/template/namespace statements are `unmodelled` in Lean and only fuzzed; "
          "the YAML model covers the shape layer only (what add_declaration does with a well-shaped entry, typemap creation and "
          "node-specific diagnostics are outside it and skipped by the tie); PyYAML's own errors. Open findings: five "
-         "documentation snippets in obsolete syntax are rejected (doc-rejected:*; repairing them is a documentation rewrite); a "
-         "top-level declaration of function-pointer type with a char/string pointer result ends in TypeError in wrapf "
-         "(pipeline:TypeError:wrapf.py:dump_abstract_interfaces; needs a decision whether such a variable is supported).",
+         "documentation snippets in obsolete syntax are rejected (doc-rejected:*; repairing them is a documentation rewrite).",
     technique="Lean 4 proof (invariants over all parser / validator functions by induction on the recursion budget or on the value "
               "tree) + differential correspondence on three driver ops + grammar-based and boundary-value fuzzing of the "
               "implementation",
